@@ -212,6 +212,46 @@ int main(int argc, char **argv) {
             n1 = snprintf(t, sizeof t, "http://h:%llu/x", (unsigned long long) v); check_one((const unsigned char *) t, (size_t) n1, 1);
         }
     }
+    /* CONNECT: the target is an authority (host ":" port).  Its raw components must re-join as well, and the numeric port follows
+     * the port text - names, IPv4 and bracketed IPv6 hosts, every port text of the directed list */
+    if (shard == 0) {
+        static const char *hosts[] = { "h", "www.example.com", "10.0.0.1", "[::1]", "[2001:db8::1]", "[fe80::1%25eth0]" };
+        static const char *ports[] = { "443", "8443", "1", "65535", "65536", "0", "", "00443", "4294967739", "x" };
+        for (size_t hi = 0; hi < sizeof hosts / sizeof hosts[0]; hi++) for (size_t pi = 0; pi < sizeof ports / sizeof ports[0]; pi++) {
+            char t[128];
+            int tl2 = snprintf(t, sizeof t, "%s:%s", hosts[hi], ports[pi]);
+            n_eval++; n_e2e++;
+            htp_connp_t *c3 = htp_connp_create(cfg);
+            hx_buf rq = { 0 };
+            hb_printf(&rq, "CONNECT %s HTTP/1.1\r\nHost: %s\r\n\r\n", t, t);
+            htp_connp_req_data(c3, NULL, rq.p, rq.n);
+            htp_tx_t *t3 = htp_list_get(c3->conn->transactions, 0);
+            if (t3 && t3->parsed_uri_raw && t3->request_uri && (int) bstr_len(t3->request_uri) == tl2) {
+                htp_uri_t *r3 = t3->parsed_uri_raw;
+                hx_buf k = { 0 };
+                app(&k, r3->hostname);
+                if (r3->port) { hb_puts(&k, ":"); app(&k, r3->port); }
+                if (r3->scheme || r3->path || r3->query || r3->fragment || r3->username || r3->password)
+                    report("connect_target_extra_component", (const unsigned char *) t, (size_t) tl2, "a CONNECT authority was given a scheme, path, query, fragment or credentials");
+                else if (k.n != (size_t) tl2 || memcmp(k.p, t, (size_t) tl2) != 0)
+                    report("connect_rejoin_mismatch", (const unsigned char *) t, (size_t) tl2, "host \":\" port of a CONNECT target does not re-join to the target");
+                hb_free(&k);
+                long expect3 = -1;
+                const char *pt = ports[pi];
+                int inv = *pt == 0;
+                unsigned long long v = 0;
+                for (const char *q = pt; *q && !inv; q++) { if (*q < '0' || *q > '9') inv = 1; else { v = v * 10 + (unsigned) (*q - '0'); if (v > 100000000ULL) v = 100000000ULL; } }
+                if (!inv && v >= 1 && v <= 65535) expect3 = (long) v;
+                if (t3->parsed_uri && t3->parsed_uri->port_number != expect3) {
+                    char d3[160];
+                    snprintf(d3, sizeof d3, "CONNECT target port text \"%s\": parsed_uri->port_number %d, expected %ld", pt, t3->parsed_uri->port_number, expect3);
+                    report("connect_port_number", (const unsigned char *) t, (size_t) tl2, d3);
+                }
+            }
+            hb_free(&rq);
+            htp_connp_destroy_all(c3);
+        }
+    }
     uint64_t s = seed * 0x9e3779b97f4a7c15ULL + shard;
     static const char *frag[] = { "http://", "a://", "//", "@", ":", "[", "]", "?", "#", "/", "[::1]", ":80", ":0", ":65535", ":65536", " ", "%41", "\t", "h", "u:p@" };
     for (uint64_t i = 0; i < nrandom; i++) {
